@@ -582,6 +582,7 @@ Proof.
   - by apply coh_reopen.
   - by apply coh_replicate.
   - by destruct (is_open s t).
+  - destruct t as [|t]; [done|]. destruct (is_open s (S t)) eqn:E; [|done]. simpl. by apply coh_abort.
 Qed.
 
 Theorem coh_run ops : forall s, coh s -> Forall op_ok ops -> coh (run s ops).
